@@ -91,3 +91,97 @@ def _do_work(m, ob):
         viol = t.aft != env.now + 1
     info['violated'] = viol
     return info
+
+
+# ---------------------------------------------------------------------------------------------------- config (C16)
+def _unit_of(m):
+    """decode the model's timestep unit: interned-string codes are not available here, so try the documented spellings
+    and the integer reading of the model value"""
+    return ['minutes', 'hours', 'seconds', 7, 60, 5, 1, 3600]
+
+
+def _write_cfg(d, unit, obs, machines=None, hot=(100, 10), cold=(100, 10), system_bandwidth=2):
+    import json, os
+    os.makedirs(d, exist_ok=True)
+    cfg = {"instrument": {"telescope": {"total_arrays": 36, "max_ingest_resources": 2,
+                                        "pipelines": {o['name']: {"workflow": "wf.json", "ingest_demand": 1} for o in obs},
+                                        "observations": obs}},
+           "cluster": {"header": {}, "system": {"resources": machines or {"m0": {"flops": 3, "compute_bandwidth": 5}},
+                                                "system_bandwidth": system_bandwidth}},
+           "buffer": {"hot": {"capacity": hot[0], "max_ingest_rate": hot[1]}, "cold": {"capacity": cold[0], "max_data_rate": cold[1]}},
+           "timestep": unit}
+    p = os.path.join(d, 'sim.json')
+    json.dump(cfg, open(p, 'w'))
+    return p, cfg
+
+
+def _mult(u):
+    return 60 if u == 'minutes' else 3600 if u == 'hours' else u if isinstance(u, int) and not isinstance(u, bool) else 1
+
+
+def _scratch():
+    import os, tempfile
+    return tempfile.mkdtemp(prefix='topsim-replay-', dir=os.environ.get('VERIF_SCRATCH', '/var/tmp'))
+
+
+def _config_replay(m, ob, section):
+    """C16 oracle evaluated concretely on the real Config for the unit spellings and custom factors;
+    the model supplies the numbers of the observation / machine / buffer entry"""
+    import copy, shutil
+    from topsim.core.config import Config
+    start = m.num('elem:observation.start', 120)
+    dur = m.num('elem:observation.duration', 240)
+    rate = m.num('elem:observation.data_product_rate', 3)
+    obs = [{"name": "a", "start": start, "duration": dur, "instrument_demand": 4, "data_product_rate": rate}]
+    d = _scratch()
+    try:
+        for unit in _unit_of(m):
+            p, cfg = _write_cfg(d, unit, copy.deepcopy(obs))
+            c = Config(p)
+            before = copy.deepcopy((c.instrument, c.cluster, c.buffer, c.timestep_unit))
+            mu = _mult(unit)
+            bad = []
+            for rep in (1, 2):          # a second parse of the same Config must give the same answer
+                if section == 'instrument':
+                    ta, pl, observations, mi = c.parse_instrument_config('telescope')
+                    o = observations[0]
+                    if o.est != start / mu:
+                        bad.append(f"parse {rep}: est={o.est} expected start/mult={start / mu}")
+                    if o.duration != dur / mu:
+                        bad.append(f"parse {rep}: duration={o.duration} expected {dur / mu}")
+                    if o.ingest_data_rate != round(rate * mu):
+                        bad.append(f"parse {rep}: rate={o.ingest_data_rate} expected {round(rate * mu)}")
+                    if o.demand != 4 or ta != 36 or mi != 2:
+                        bad.append(f"parse {rep}: unscaled quantity changed")
+                elif section == 'cluster':
+                    ml, bw = c.parse_cluster_config()
+                    if ml[0].cpu != 3 * mu or ml[0].bandwidth != 5 * mu or ml[0].memory != 1 or ml[0].disk != 1 or bw != 2 * mu:
+                        bad.append(f"parse {rep}: cpu={ml[0].cpu} bandwidth={ml[0].bandwidth} system={bw} expected {3 * mu}, {5 * mu}, {2 * mu}")
+                else:
+                    hot, cold = c.parse_buffer_config()
+                    if hot[0].max_ingest_data_rate != 10 * mu or cold[0].max_data_rate != 10 * mu or hot[0].total_capacity != 100 \
+                            or cold[0].total_capacity != 100:
+                        bad.append(f"parse {rep}: hot rate={hot[0].max_ingest_data_rate} cold rate={cold[0].max_data_rate} expected {10 * mu}")
+                after = (c.instrument, c.cluster, c.buffer, c.timestep_unit)
+                if after != before:
+                    bad.append(f"parse {rep}: the configuration held by Config was modified by parsing")
+            if bad:
+                return dict(violated=True, unit=unit, observation=obs[0], observed=bad)
+        return dict(violated=False, note='no unit / factor reproduced the failure', observation=obs[0])
+    finally:
+        shutil.rmtree(d, ignore_errors=True)
+
+
+@builder('Config.parse_instrument_config')
+def _cfg_i(m, ob):
+    return _config_replay(m, ob, 'instrument')
+
+
+@builder('Config.parse_cluster_config')
+def _cfg_c(m, ob):
+    return _config_replay(m, ob, 'cluster')
+
+
+@builder('Config.parse_buffer_config')
+def _cfg_b(m, ob):
+    return _config_replay(m, ob, 'buffer')
